@@ -102,7 +102,21 @@ class Fn:
                 return '(b2z (%s))' % c
             if w < 0:
                 if op in ('+', '-', '*'): return '(%s %s %s)' % (a, op, b)      # signed: mathematical value (overflow would be UB)
-                if op in ('<<', '>>'): raise Unsupported('shift of a signed value')
+                if op in ('<<', '>>'):
+                    # a shift in type int is accepted when the operand is a promoted narrower UNSIGNED value (non-negative) and, for
+                    # a left shift, the result provably fits into int: then it is the mathematical value
+                    lhs = n['inner'][0]; r = lit(n['inner'][1])
+                    src = lhs
+                    while src['kind'] == 'ParenExpr': src = src['inner'][0]
+                    uw = None
+                    if src['kind'] == 'ImplicitCastExpr' and src.get('castKind') == 'IntegralCast':
+                        try: uw = width(src['inner'][0]['type']['qualType'])
+                        except Unsupported: uw = None
+                    if uw is not None and 0 < uw < -w and r['kind'] == 'IntegerLiteral':
+                        sh = int(r['value'])
+                        if op == '>>' and 0 <= sh < -w: return '(%s / 2^%d)' % (a, sh)
+                        if op == '<<' and 0 <= sh and uw + sh < -w - 1: return '(%s * 2^%d)' % (a, sh)
+                    raise Unsupported('shift of a signed value')
             return s.binop(op, a, b, w, n['inner'][1])
         if k == 'CallExpr':
             fn = s.callee(n); args = n['inner'][1:]
